@@ -121,3 +121,9 @@ Proof.
     rewrite (N.div_small lo) by exact Hlo. rewrite N.bits_0, orb_false_r.
     rewrite N.add_comm, N.div_add by exact Hp. rewrite (N.div_small lo) by exact Hlo. reflexivity.
 Qed.
+Lemma land_127 x : N.land x 127 = x mod 128.
+Proof. change 127 with (N.ones 7). now rewrite N.land_ones. Qed.
+Lemma land_33554431 x : N.land x 33554431 = x mod 33554432.
+Proof. change 33554431 with (N.ones 25). now rewrite N.land_ones. Qed.
+Lemma land_4294967295 x : N.land x 4294967295 = x mod 4294967296.
+Proof. change 4294967295 with (N.ones 32). now rewrite N.land_ones. Qed.
